@@ -39,7 +39,8 @@ def plan(tier, seed):
             'absent': [dict(n=3, m=2, labels='ints', schemes='c14_12', configs='fast'),
                        dict(n=3, m=3, labels='ints', schemes='c14_4', configs='fast_det', complete_only=True, per=200),
                        dict(n=3, m=2, labels=alt, schemes='c14_4', configs='fast_det'),
-                       dict(n=2, m=2, labels='ints', schemes='c14_4', configs='cbc', per=2)],
+                       dict(n=2, m=2, labels='ints', schemes='c14_4', configs='cbc', per=2),
+                       dict(n=3, m=2, labels='ints', schemes='c14_4', configs='fast_det', premutate=True, reuse=False)],
             'absent_enum': [dict(n=3, m=2, labels='ints', schemes='c14_4', configs='solver')],
             'stub': [dict(n=3, m=2, labels='ints', schemes='c14_4', configs='solver')],
         }
